@@ -4,7 +4,7 @@ CONSTANTS
   MaxId = 3
   MaxAcl = 1
   MaxFaults = 1
-  FIX_NamedResult = FALSE
+  FIX_NamedResult = TRUE
   FIX_AclWriteFirst = TRUE
   FIX_DeferredReset = TRUE
   FIX_LocalRollback = TRUE
@@ -25,5 +25,6 @@ INVARIANT SpaceAllOrNothing
 INVARIANT ReopenValid
 INVARIANT LiveAgreesWithDisk
 INVARIANT RetrySucceeds
+INVARIANT ObserverSeesCommitted
 VIEW view
 CHECK_DEADLOCK FALSE
